@@ -29,6 +29,8 @@ pub enum Op {
     SetComplete,
     AllocToi,
     DropToi(usize),
+    /// emit the explicit close-session packet
+    CloseSession,
 }
 
 #[derive(Clone, Debug, PartialEq, Serialize, Deserialize)]
@@ -226,6 +228,7 @@ impl Driver {
     pub fn apply(&mut self, scn: &SenderScn, op_index: usize, t_us: u64) {
         let op = scn.ops[op_index].op.clone();
         let now = systime_us(t_us);
+        let pkts_before = self.trace.pkts.len();
         flute::verif::reset_loop_budget(LOOP_BUDGET);
         let result = match &op {
             Op::Add(i) => match scn.objects.get(*i) {
@@ -280,6 +283,12 @@ impl Driver {
                 }
                 _ => OpResult::Skipped,
             },
+            Op::CloseSession => {
+                let bytes = self.sender.read_close_session(now);
+                let poll = self.trace.polls.len();
+                self.record(bytes, t_us, poll);
+                OpResult::Done
+            }
         };
         let seq = self.ctx.borrow().next_seq();
         {
@@ -293,6 +302,7 @@ impl Driver {
                 Op::SetComplete => "S:complete",
                 Op::AllocToi => "S:alloc",
                 Op::DropToi(_) => "S:droptoi",
+                Op::CloseSession => "S:close",
             });
         }
         self.trace.ops.push(OpRec {
@@ -301,7 +311,7 @@ impl Driver {
             op_index,
             op,
             result,
-            pkts_before: self.trace.pkts.len(),
+            pkts_before,
         });
     }
 
